@@ -1,7 +1,7 @@
 """Rules for the card encoding, containers and tables: C10, C11, C14, C18, C19, C20."""
 from itertools import product, permutations
 from .base import *
-from ..evals import cell_table, CellsRefused, BitVec, b_deps, children, domain_size
+from ..evals import cell_table, CellsRefused, BitVec, b_deps, children, domain_size, substitute
 from ..pdb import INT_BITS
 
 PC = "PokerCard"
@@ -84,8 +84,20 @@ def check_filter_cells(ctx, rule, key, sty, words):
         bad = refute_over(ctx, s_.ret, "w", near_miss_words(words), lambda v: v if v in cardset else 0)
         if bad:
             rep.ob(rule, "near-miss word", False, "filter(%#x) = %s, expected %#x (a word that is not one of the 52 cards must map to BLANK)" % bad[0], ctx.pdb.where(key))
-        else:
-            rep.uncertified(rule, "filter is not a comparison table: %s" % e, ctx.pdb.where(key))
+            return
+        acc = None
+        try:
+            acc = preimage_filter(ctx, s_.ret, "w")
+        except Uncertified as u:
+            rep.note("%s: preimage analysis not applicable: %s" % (rule, u.what))
+        if acc is None:
+            rep.uncertified(rule, "filter is not a comparison table (%s) and not of the form `w if w == g(few bits of w) else BLANK`" % e, ctx.pdb.where(key))
+            return
+        extra = sorted(acc - cardset)
+        missing = sorted(cardset - acc)
+        rep.ob(rule, "accepted set (preimage analysis over all 2^32 words)", not extra and not missing,
+               "filter passes %d words: unexpected %s, missing cards %s" % (len(acc), [hex(x) for x in extra[:3]], [hex(x) for x in missing[:3]]), ctx.pdb.where(key))
+        rep.sample({"rule": rule, "method": "preimage of the acceptance equation", "accepted": len(acc)})
         return
     rep.evals(2 * len(cells))
     cardset = set(words)
@@ -107,6 +119,67 @@ def check_filter_cells(ctx, rule, key, sty, words):
                        ctx.pdb.where(key))
     rep.ob(rule, "domain covered", covered == 1 << 32, "cells cover %d of 2^32 words" % covered)
     rep.sample({"rule": rule, "cells": len(cells), "constants": nconst, "domain": "2^32"})
+
+
+def ite_leaves(x, out, seen=None):
+    seen = seen if seen is not None else set()
+    if id(x) in seen:
+        return out
+    seen.add(id(x))
+    if x[0] == "ite":
+        ite_leaves(x[2], out, seen)
+        ite_leaves(x[3], out, seen)
+    else:
+        out.append(x)
+    return out
+
+
+def preimage_filter(ctx, dag, an):
+    """Exact accepted set of a function f with f(w) in {w, 0}, when returning w requires an equation w == E(w) whose
+    right-hand side depends on few bits of w: enumerate those bits, form the candidates E, keep the consistent ones
+    that f really accepts.  Returns the set of accepted words, or None when the shape does not apply."""
+    pdb = ctx.pdb
+    w = atom(an, "u32")
+    leaves = ite_leaves(dag, [])
+    if not all((l is w) or (l[0] == "c" and l[1] == 0) for l in leaves):
+        return None
+    best = None
+    for x in walk(dag):
+        if x[0] == "bin" and x[1] == "Eq" and (x[2] is w or x[3] is w):
+            E = x[3] if x[2] is w else x[2]
+            deps = result_deps(pdb, E)
+            bits = sorted({b for (nm, b) in deps if nm == an})
+            if any(nm != an for nm, _ in deps) or len(bits) > 18:
+                continue
+            # necessity: with the equation false nothing but BLANK can be returned
+            d0 = substitute(dag, lambda nd, x=x: FALSE if nd is x else None)
+            if all(l[0] == "c" and l[1] == 0 for l in ite_leaves(d0, [])):
+                if best is None or len(bits) < len(best[1]):
+                    best = (E, bits)
+    if best is None:
+        return None
+    E, bits = best
+    acc = set()
+    for v in range(1 << len(bits)):
+        w0 = 0
+        for i, b in enumerate(bits):
+            if (v >> i) & 1:
+                w0 |= 1 << b
+        try:
+            c = cval(evaluate(pdb, E, {an: w0}))
+        except IndexError:
+            continue
+        if c is None:
+            continue
+        if all(((c >> b) & 1) == ((w0 >> b) & 1) for b in bits):
+            try:
+                if cval(evaluate(pdb, dag, {an: c})) == c and c != 0:
+                    acc.add(c)
+            except IndexError:
+                pass
+    ctx.rep.evals(1 << len(bits))
+    # blank itself: f(0) must be 0 (it is not a card)
+    return acc
 
 
 def near_miss_words(words):
